@@ -108,6 +108,7 @@ def run(rep, tier):
         probe2.violations = [v for v in probe2.violations if "rule" in v]
         rep.merge(probe2.export())
     rule_cpp_helper(rep, build)
+    rule_cpp_helper_semantic(rep, build)
     rule_cow(rep, build)
 
 
@@ -1109,6 +1110,115 @@ def rule_assign_semantic(rep, m):
                       (" (and %d more)" % (len(bad) - 3) if len(bad) > 3 else ""))
     else:
         rep.instance(rid, n, {"scenarios": n})
+
+
+def rule_cpp_helper_semantic(rep, build, rid="C20.D3s"):
+    """The C++ helper bytes_from_hex(const char *, size_t) returns exactly what
+    the C decoder accepts: its IR (ASCON_NO_STL instantiation, so that the
+    returned array is the library's own byte_array) is evaluated by constant
+    propagation with ascon_bytes_from_hex replaced by its specification (the
+    documented decoder, decided by D1 / D1s) and the allocator by fresh
+    objects, on strings with white space, odd and even lengths, invalid
+    characters and the empty string."""
+    from .affine import Machine, Ptr, Unsupported, const_bits, to_int, is_const
+    from .sponge import cbytes
+    rep.rule(rid, "C++ bytes_from_hex returns exactly the bytes the C decoder accepts (strings with white space, odd lengths, failures)")
+    m = witness_ir(build, True)
+    f = None
+    for g in m.defined():
+        if g.name.startswith("_ZN5asconL14bytes_from_hexEPKcm"):
+            f = g
+    if f is None:
+        rep.unproved_item(rid, "bytes_from_hex(const char *, size_t) is not emitted in the NO_STL witness IR")
+        return
+    t = None
+    for dt in m.ditypes:
+        if dt["name"] == "byte_array_private":
+            t = dt
+    if t is None:
+        raise repo.AnalysisBroken("%s: no debug type for byte_array_private" % rid)
+    off = {mem[0]: mem[1] for mem in t["members"]}
+
+    def ref(inp, outlen):
+        out, nib = [], None
+        for ch in inp:
+            if ch in b" \t\r\n\f\v":
+                continue
+            if 48 <= ch <= 57:
+                v = ch - 48
+            elif 97 <= ch <= 102:
+                v = ch - 87
+            elif 65 <= ch <= 70:
+                v = ch - 55
+            else:
+                return -1, out
+            if nib is None:
+                nib = v
+            else:
+                if len(out) >= outlen:
+                    return -1, out
+                out.append(nib * 16 + v)
+                nib = None
+        return (-1, out) if nib is not None else (len(out), out)
+    inputs = [b"", b"00", b"00 01", b"de ad be ef", b"0a0b\n", b" 00ff", b"1 2", b"0", b"0g", b"012", b"AbCd", b"\t\n"]
+    bad, n = [], 0
+    try:
+        for inp in inputs:
+            mc = Machine(m)
+            cnt = [0]
+
+            def alloc(mc_, args, cnt=cnt):
+                k = to_int(args[0])
+                if k is None:
+                    raise Unsupported("allocation of a non-constant size")
+                cnt[0] += 1
+                o = mc_.new_obj("heap%d" % cnt[0], max(k, 1), symbolic=False)
+                mc_.store(o, const_bits(0, 8 * max(k, 1)))
+                return o
+
+            def decoder(mc_, args):
+                o, ol, ip, il = args
+                ol, il = to_int(ol), to_int(il)
+                if ol is None or il is None:
+                    raise Unsupported("decoder called with non-constant lengths")
+                data = bytes(to_int(mc_.load(Ptr(ip.obj, ip.off + k), 1)) for k in range(il))
+                r, out = ref(data, ol)
+                for k, bt in enumerate(out):
+                    mc_.store(Ptr(o.obj, o.off + k), const_bits(bt, 8))
+                return const_bits(r & 0xffffffff, 32)
+            for nm in ("_Znwm", "_Znam", "malloc"):
+                mc.hooks[nm] = alloc
+            mc.hooks["calloc"] = lambda mc_, a: alloc(mc_, [const_bits((to_int(a[0]) or 0) * (to_int(a[1]) or 0), 64)])
+            for nm in ("_ZdlPv", "_ZdaPv", "free", "_ZdlPvm"):
+                mc.hooks[nm] = lambda mc_, a: None
+            mc.hooks["ascon_bytes_from_hex"] = decoder
+            sobj = mc.new_obj("str", len(inp) + 1, symbolic=False)
+            mc.store(sobj, cbytes(inp + b"\0"))
+            res = mc.new_obj("res", 8, symbolic=False)
+            mc.store(res, const_bits(0, 64))
+            mc.call(f.name, [res, sobj, const_bits(len(inp), 64)])
+            pp = mc.pmem.get((res.obj, 0))
+            if pp is None or pp.obj == "null":
+                got = b""
+            else:
+                sz = to_int(mc.load(Ptr(pp.obj, off["size"]), 8))
+                dp = mc.pmem.get((pp.obj, off["data"]))
+                if sz is None or (sz and dp is None):
+                    raise Unsupported("returned array not readable")
+                got = bytes(to_int(mc.load(Ptr(dp.obj, dp.off + k), 1)) for k in range(sz))
+            r, out = ref(inp, len(inp) // 2)
+            want = bytes(out) if r >= 0 else b""
+            n += 1
+            if got != want:
+                bad.append("%r gives %s, the C decoder gives %s" % (inp, got.hex() or "an empty array", want.hex() or "an empty array"))
+    except Unsupported as e:
+        rep.unproved_item(rid, "bytes_from_hex: %s" % e)
+        return
+    if bad:
+        rep.violation(rid, "bytes_from_hex:value", f.src, "ascon::bytes_from_hex (C++ helper): " + "; ".join(bad[:3]) +
+                      (" (and %d more)" % (len(bad) - 3) if len(bad) > 3 else ""))
+    else:
+        rep.instance(rid, n, {"inputs": n})
 
 
 def rule_decoder_semantic(rep, m):
